@@ -1,86 +1,290 @@
 #!/usr/bin/env python3
 """
-How the GENERATED proof files of package `e2e` (round 2) were produced from existing proof files, so that they can be
-re-derived when the originals change.  Run from verif/lean/GM/Proof.  The script only documents the MECHANICAL part; the
-hand edits made afterwards are listed at the end of each section (they are small and the compiler points at them).
+Re-generates the GENERATED proof files of package `e2e` from the proof files they are copies of, INCLUDING the edits that
+used to be made by hand (every edit is a checked text substitution: the script stops with a message if an edit does not
+apply exactly as often as expected, so a change of the originals that the copies cannot follow is noticed here and not in
+the middle of a Lean error list).
 
-  1. E2EUrlTokKinds{,2,3,4}.lean, E2EUrlTokMain.lean   from RenderWF/Kinds{,2,3,4}.lean, RenderWF/Main.lean
-  2. E2ELoLoop.lean                                     from InlinesLoopTotal.lean
-  3. E2ELoLink.lean                                     from InlinesLink.lean
+  1. lean/GM/Proof/E2EUrlTokKinds{,2,3,4}.lean, E2EUrlTokMain.lean   from RenderWF/Kinds{,2,3,4}.lean, RenderWF/Main.lean
+     (grammar `WFHtmlU` = `WFHtml` + harmless `href` / `src` values as a side condition of every start tag)
+  2. lean/GM/Proof/E2ELoLoop.lean                                     from InlinesLoopTotal.lean
+     (loop invariant of the inline phase with a parametric lower bound `lo0` of the segment chain)
+  3. lean/GM/Proof/E2ELoLink.lean                                     from InlinesLink.lean
+     (+ the closing theorem `parseBlock_segments_lo`, kept in notes/e2e_gen/E2ELoLink.tail.lean)
+
+USAGE (from anywhere; ROOT defaults to the verif tree this script lives in):
+
+    python3 notes/e2e_gen_copies.py                  # rewrite the seven files in ROOT/lean/GM/Proof
+    python3 notes/e2e_gen_copies.py --check          # regenerate in memory, compare with the files in the tree, exit 1 on a difference
+    python3 notes/e2e_gen_copies.py --root /path/to/verif [--check]
+    afterwards:  cd ROOT/lean && lake build GM.Props.ConvertE2E GM.Props.C05E2E
+
+WHEN to run: after a change of InlinesLoopTotal.lean / InlinesLink.lean (e.g. package escfix: the `escaped := false`
+repair of the byte loop) or of RenderWF/Kinds*.lean / Main.lean. The substitutions are written so that they apply to the
+files before AND after escfix's change (`ih s'.escaped st2 …` / `ih false st2 …` both become `ih _ st2 …`).
 """
+import os
 import re
+import sys
+
+
+class GenError(Exception):
+    pass
+
+
+def sub_n(s, old, new, n, what):
+    """replace `old` by `new`, which must occur exactly `n` times (n = None: at least once)"""
+    k = s.count(old)
+    if (n is None and k == 0) or (n is not None and k != n):
+        raise GenError('%s: expected %s occurrence(s) of %r, found %d' % (what, 'some' if n is None else n, old, k))
+    return s.replace(old, new)
+
+
+def resub_n(s, pat, new, n, what):
+    out, k = re.subn(pat, new, s)
+    if k != n:
+        raise GenError('%s: expected %d match(es) of /%s/, found %d' % (what, n, pat, k))
+    return out
+
+
+def in_decl(s, start_marker, edit, what):
+    """apply `edit` to the declaration that starts with `start_marker` (up to the next blank line followed by a
+    declaration keyword or the end of the file)"""
+    i = s.find(start_marker)
+    if i < 0 or s.find(start_marker, i + 1) >= 0:
+        raise GenError('%s: declaration %r not found exactly once' % (what, start_marker))
+    m = re.compile(r'\n\n(?=(/--|theorem |def |structure |/-!|end |mutual|section|variable|omit |include ))').search(s, i)
+    j = m.start() if m else len(s)
+    return s[:i] + edit(s[i:j]) + s[j:]
+
 
 # ---------------------------------------------------------------- 1. grammar with harmless URL attributes
-def conv(name, newname, imports):
-    s = open('RenderWF/' + name + '.lean').read()
+
+URLTOK_HEADER = ('/-\n  GM.Proof.%s — copy of GM.Proof.RenderWF.%s for the grammar `WFHtmlU` (harmless `href` / `src` values as a side\n'
+                 '  condition of every start tag); see GM.Proof.E2EUrlTokGrammar. Only `wf_el` / `wf_void` differ (they ask for `UrlAttrs`).\n-/\n')
+
+
+def conv(proof, name, newname, imports):
+    s = open(os.path.join(proof, 'RenderWF', name + '.lean')).read()
     body = s[s.index('namespace GM.Proof.RenderWF'):]
-    body = body.replace('namespace GM.Proof.RenderWF\nopen GM GM.Spec',
-                        'namespace GM.Proof.RenderWFU\nopen GM GM.Spec GM.Proof.RenderWF', 1)
-    body = body.replace('end GM.Proof.RenderWF', 'end GM.Proof.RenderWFU')
+    body = sub_n(body, 'namespace GM.Proof.RenderWF\nopen GM GM.Spec',
+                 'namespace GM.Proof.RenderWFU\nopen GM GM.Spec GM.Proof.RenderWF', 1, newname + ' namespace')
+    body = sub_n(body, 'end GM.Proof.RenderWF', 'end GM.Proof.RenderWFU', 1, newname + ' end')
     body = body.replace('WFHtml', 'WFHtmlU')
     # keep only the declarations that mention the grammar (everything else is taken from GM.Proof.RenderWF)
     blocks = re.split(r'\n\n+', body)
     keep = [b for b in blocks if 'WFHtmlU' in b or b.lstrip().startswith(
         ('namespace', 'open ', 'variable', 'end ', '/-!', 'section'))]
-    hdr = '/-\n  GM.Proof.%s — copy of GM.Proof.RenderWF.%s for the grammar `WFHtmlU` …\n-/\n' % (newname, name)
-    hdr += ''.join('import %s\n' % i for i in imports) + '\n'
-    open(newname + '.lean', 'w').write(hdr + '\n\n'.join(keep) + '\n')
+    hdr = URLTOK_HEADER % (newname, name) + ''.join('import %s\n' % i for i in imports) + '\n'
+    return hdr + '\n\n'.join(keep) + '\n'
 
-def gen_urltok():
-    conv('Kinds', 'E2EUrlTokKinds', ['GM.Proof.RenderWF.Write', 'GM.Proof.RenderWF.Tags', 'GM.Proof.RenderWF.Consts',
-                                      'GM.Proof.RenderWF.Kinds', 'GM.Proof.E2EUrlTokGrammar'])
-    conv('Kinds2', 'E2EUrlTokKinds2', ['GM.Proof.E2EUrlTokKinds', 'GM.Proof.RenderWF.Kinds2'])
-    conv('Kinds3', 'E2EUrlTokKinds3', ['GM.Proof.E2EUrlTokKinds2', 'GM.Proof.RenderWF.Kinds3'])
-    conv('Kinds4', 'E2EUrlTokKinds4', ['GM.Proof.E2EUrlTokKinds3', 'GM.Proof.RenderWF.Kinds4'])
-    conv('Main', 'E2EUrlTokMain', ['GM.Proof.E2EUrlTokKinds4', 'GM.Proof.RenderWF.Template', 'GM.Proof.RenderWF.Main'])
-    # HAND EDITS afterwards:
-    #  * E2EUrlTokKinds: `wf_el` / `wf_void` get a last auto-param `(hu : UrlAttrs as := by urlattrs)` passed to `.elem` / `.void`;
-    #  * E2EUrlTokKinds3: `wf_cell_gen` gets `(hf : filter.all (fun n => !urlAttrNames.contains n) = true := by decide +kernel)`
-    #    and passes `(urlAttrs_user _ hf _)` / `(urlAttrs_cons_nonurl (by decide +kernel) (urlAttrs_user _ hf _))` to `wf_el`.
+
+def gen_urltok(proof):
+    out = {}
+    s = conv(proof, 'Kinds', 'E2EUrlTokKinds', ['GM.Proof.RenderWF.Write', 'GM.Proof.RenderWF.Tags', 'GM.Proof.RenderWF.Consts',
+                                                 'GM.Proof.RenderWF.Kinds', 'GM.Proof.E2EUrlTokGrammar'])
+    # `wf_el` / `wf_void` get a last auto-param `(hu : UrlAttrs as := by urlattrs)` that is passed to `.elem` / `.void`
+    s = sub_n(s, '(hpre : inertBytes pre = true) (hpost : inertBytes post = true) (hbody : WFHtmlU x body) :',
+              '(hpre : inertBytes pre = true) (hpost : inertBytes post = true) (hbody : WFHtmlU x body)\n'
+              '    (hu : UrlAttrs as := by urlattrs) :', 1, 'E2EUrlTokKinds wf_el signature')
+    s = sub_n(s, '(WFHtmlU.elem n as (pre ++ body) tf.void sok (.append _ _ (.txt hpre) hbody))',
+              '(WFHtmlU.elem n as (pre ++ body) tf.void sok hu (.append _ _ (.txt hpre) hbody))', 1, 'E2EUrlTokKinds wf_el body')
+    s = sub_n(s, '(hpost : inertBytes post = true) : WFHtmlU x opn := by',
+              '(hpost : inertBytes post = true) (hu : UrlAttrs as := by urlattrs) : WFHtmlU x opn := by', 1,
+              'E2EUrlTokKinds wf_void signature')
+    s = sub_n(s, '(WFHtmlU.void (x := x) n as tf.void sok)', '(WFHtmlU.void (x := x) n as tf.void sok hu)', 1,
+              'E2EUrlTokKinds wf_void body')
+    out['E2EUrlTokKinds'] = s
+    out['E2EUrlTokKinds2'] = conv(proof, 'Kinds2', 'E2EUrlTokKinds2', ['GM.Proof.E2EUrlTokKinds', 'GM.Proof.RenderWF.Kinds2'])
+    s = conv(proof, 'Kinds3', 'E2EUrlTokKinds3', ['GM.Proof.E2EUrlTokKinds2', 'GM.Proof.RenderWF.Kinds3'])
+    # `wf_cell_gen`: the user attributes that pass `filter` are no URL attributes
+    s = sub_n(s, '(align : Nat) (attrs : Option (List Attr)) (hinv : attrsInv attrs = true) {body : Bytes} (hb : WFHtmlU x body) :',
+              '(align : Nat) (attrs : Option (List Attr)) (hinv : attrsInv attrs = true) {body : Bytes} (hb : WFHtmlU x body)\n'
+              '    (hf : filter.all (fun n => !urlAttrNames.contains n) = true := by decide +kernel) :', 1,
+              'E2EUrlTokKinds3 wf_cell_gen signature')
+
+    def cell(d):
+        d = sub_n(d, '(by rw [renderAttrs_eq]; bnorm) (by bnorm) rfl (by decide) hb\n',
+                  '(by rw [renderAttrs_eq]; bnorm) (by bnorm) rfl (by decide) hb (urlAttrs_user _ hf _)\n', 1,
+                  'E2EUrlTokKinds3 wf_cell_gen first wf_el')
+        # the second `wf_el` call (the cell with an `align` / `style` attribute in front) ends the declaration
+        lines = d.rstrip('\n').split('\n')
+        lines.append('      (urlAttrs_cons_nonurl (by decide +kernel) (urlAttrs_user _ hf _))')
+        return '\n'.join(lines)
+    s = in_decl(s, 'theorem wf_cell_gen', cell, 'E2EUrlTokKinds3')
+    out['E2EUrlTokKinds3'] = s
+    out['E2EUrlTokKinds4'] = conv(proof, 'Kinds4', 'E2EUrlTokKinds4', ['GM.Proof.E2EUrlTokKinds3', 'GM.Proof.RenderWF.Kinds4'])
+    out['E2EUrlTokMain'] = conv(proof, 'Main', 'E2EUrlTokMain', ['GM.Proof.E2EUrlTokKinds4', 'GM.Proof.RenderWF.Template',
+                                                                  'GM.Proof.RenderWF.Main'])
+    return out
+
 
 # ---------------------------------------------------------------- 2./3. loop invariant with a parametric lower bound
-def gen_lo():
-    s = open('InlinesLoopTotal.lean').read()
+
+LOLOOP_HEADER = '''/-
+  GM.Proof.E2ELoLoop — GENERATED copy of GM.Proof.InlinesLoopTotal with the lower bound of the segment chain of the loop
+  invariant generalised from 0 to a parameter `lo0` (`LInv lo0 …`, `PContract lo0 …`): the recorded segments start at or
+  behind `lo0`. Instantiated with the start of the block's first line in GM.Proof.E2ELoLink. The original file is untouched.
+-/
+'''
+
+LOLINK_HEADER = '''/-
+  GM.Proof.E2ELoLink — GENERATED copy of GM.Proof.InlinesLink over the loop invariant with a parametric lower bound
+  (GM.Proof.E2ELoLoop): the link parser's contract, all contracts, and the segment theorem with the lower bound `lo0` =
+  the start of the block's first line. The original file is untouched.
+-/
+'''
+
+
+def gen_loloop(proof):
+    s = open(os.path.join(proof, 'InlinesLoopTotal.lean')).read()
     body = s[s.index('namespace GM.Proof.InlinesTotal'):]
-    body = body.replace(
-        'namespace GM.Proof.InlinesTotal\nopen GM GM.Text GM.Spec GM.Inl GM.Proof.Reader GM.Proof.InlinesReader GM.Proof.Inlines',
-        'namespace GM.Proof.InlinesLo\nopen GM GM.Text GM.Spec GM.Inl GM.Proof.Reader GM.Proof.InlinesReader GM.Proof.Inlines GM.Proof.InlinesTotal', 1)
-    body = body.replace('end GM.Proof.InlinesTotal', 'end GM.Proof.InlinesLo')
-    body = body.replace('variable {src : Bytes} {segs : List Segment}', 'variable {src : Bytes} {segs : List Segment} {lo0 : Int}', 1)
-    body = body.replace('chain 0 ', 'chain lo0 ')
+    body = sub_n(body,
+                 'namespace GM.Proof.InlinesTotal\nopen GM GM.Text GM.Spec GM.Inl GM.Proof.Reader GM.Proof.InlinesReader GM.Proof.Inlines',
+                 'namespace GM.Proof.InlinesLo\nopen GM GM.Text GM.Spec GM.Inl GM.Proof.Reader GM.Proof.InlinesReader GM.Proof.Inlines GM.Proof.InlinesTotal',
+                 1, 'E2ELoLoop namespace')
+    body = sub_n(body, 'end GM.Proof.InlinesTotal', 'end GM.Proof.InlinesLo', 1, 'E2ELoLoop end')
+    body = sub_n(body, 'variable {src : Bytes} {segs : List Segment}', 'variable {src : Bytes} {segs : List Segment} {lo0 : Int}', 1,
+                 'E2ELoLoop variable')
+    body = sub_n(body, 'chain 0 ', 'chain lo0 ', None, 'E2ELoLoop chain')
     for st in ('LInv', 'ScanInv'):
-        body = body.replace('structure %s (X : Ctx)' % st, 'structure %s (lo0 : Int) (X : Ctx)' % st)
+        body = sub_n(body, 'structure %s (X : Ctx)' % st, 'structure %s (lo0 : Int) (X : Ctx)' % st, 1, 'E2ELoLoop ' + st)
         body = re.sub(st + r' (?!\(lo0)', st + ' lo0 ', body)
         body = body.replace('structure %s lo0 (lo0 : Int)' % st, 'structure %s (lo0 : Int)' % st)
-    body = body.replace('def PContract (X : Ctx)', 'def PContract (lo0 : Int) (X : Ctx)')
+    body = sub_n(body, 'def PContract (X : Ctx)', 'def PContract (lo0 : Int) (X : Ctx)', 1, 'E2ELoLoop PContract')
     body = re.sub(r'PContract (?!\(lo0)', 'PContract lo0 ', body)
     body = body.replace('def PContract lo0 (lo0 : Int)', 'def PContract (lo0 : Int)')
-    # cut everything from `Ctx.pos` on (the closing theorems instantiate the bound 0), keep `blockFuel_gt`
-    open('E2ELoLoop.lean', 'w').write('import GM.Proof.InlinesTotal\n\n' + body)
-    # HAND EDITS: cut the tail from `def Ctx.pos` on and re-append `blockFuel_gt`; `(hlo : 0 ≤ lo0)` added to
-    # `eolText_total`, `endOfLine_total`, `lineLoop_total` (and passed on); in `eolText_total`
-    # `have h0 : 0 ≤ diff.start := by have := chain_le hc; omega`; in `lineLoop_total` `ih _ st2 …` instead of `ih s'.escaped st2 …`
-    # (compiles against the model before AND after escfix's `escaped := false` repair).
 
-    s = open('InlinesLink.lean').read()
+    # --- the edits that used to be made by hand
+    # (a) the bound is non-negative where the proof needs `0 ≤ diff.start`: a hypothesis `hlo` threaded through three theorems
+    def eol_text(d):
+        d = sub_n(d, '(hlk : X.LK kids n bt) :', '(hlk : X.LK kids n bt) (hlo : 0 ≤ lo0) :', 1, 'eolText_total signature')
+        return sub_n(d, 'have h0 : 0 ≤ diff.start := chain_le hc', 'have h0 : 0 ≤ diff.start := by have := chain_le hc; omega', 1,
+                     'eolText_total h0')
+    body = in_decl(body, 'theorem eolText_total', eol_text, 'E2ELoLoop')
+
+    def end_of_line(d):
+        d = sub_n(d, '(hS : ScanInv lo0 X src segs v [] i s c) :', '(hS : ScanInv lo0 X src segs v [] i s c) (hlo : 0 ≤ lo0) :', 1,
+                  'endOfLine_total signature')
+        return sub_n(d, 'simp only at *; omega) hS.inv.lk\n', 'simp only at *; omega) hS.inv.lk hlo\n', 1, 'endOfLine_total call')
+    body = in_decl(body, 'theorem endOfLine_total', end_of_line, 'E2ELoLoop')
+
+    def line_loop(d):
+        d = sub_n(d, '(hC : ∀ ip, PContract lo0 X src segs (trigOf ip) (ip.parse env)) :',
+                  '(hC : ∀ ip, PContract lo0 X src segs (trigOf ip) (ip.parse env)) (hlo : 0 ≤ lo0) :', 1, 'lineLoop_total signature')
+        d = sub_n(d, 'endOfLine_total X F Z (flags := (classify line).2) q1\n',
+                  'endOfLine_total X F Z (flags := (classify line).2) q1 hlo\n', 1, 'lineLoop_total call')
+        # `ih s'.escaped st2 …` (model before escfix) / `ih false st2 …` (after): the flag is inferred
+        return resub_n(d, r'exact ih \S+ st2 c2 g2 \(by omega\)', 'exact ih _ st2 c2 g2 (by omega)', 1, 'lineLoop_total ih')
+    body = in_decl(body, 'theorem lineLoop_total', line_loop, 'E2ELoLoop')
+
+    # (b) the closing theorems instantiate the bound 0: cut everything from `Ctx.pos` on, keep `blockFuel_gt`
+    cut = body.find('/-- the context invariant "every open delimiter still has characters" -/\ndef Ctx.pos')
+    if cut < 0:
+        raise GenError('E2ELoLoop: `def Ctx.pos` (start of the part that is cut) not found')
+    tail = body[cut:]
+    m = re.search(r'(?:/--(?:(?!-/).)*-/\n)?theorem blockFuel_gt .*?(?=\n\n)', tail, re.S)
+    if not m:
+        raise GenError('E2ELoLoop: `theorem blockFuel_gt` not found behind `Ctx.pos`')
+    head = body[:cut].rstrip('\n')
+    if not head.endswith('/-! ### the whole phase -/'):
+        head += '\n\n/-! ### the whole phase -/'
+    body = head + '\n\n' + m.group(0) + '\n\nend GM.Proof.InlinesLo\n'
+    return LOLOOP_HEADER + 'import GM.Proof.InlinesTotal\n\n' + body
+
+
+def gen_lolink(proof, notes):
+    s = open(os.path.join(proof, 'InlinesLink.lean')).read()
     body = s[s.index('namespace GM.Proof.InlinesLink'):]
-    body = body.replace('namespace GM.Proof.InlinesLink', 'namespace GM.Proof.InlinesLoLink', 1)
-    body = body.replace('end GM.Proof.InlinesLink', 'end GM.Proof.InlinesLoLink')
-    body = body.replace(
-        'open GM GM.Text GM.Spec GM.Inl GM.Proof.Reader GM.Proof.InlinesReader GM.Proof.Inlines GM.Proof.InlinesTotal',
-        'open GM GM.Text GM.Spec GM.Inl GM.Proof.Reader GM.Proof.InlinesReader GM.Proof.Inlines GM.Proof.InlinesTotal GM.Proof.InlinesLo', 1)
-    body = body.replace('variable {src : Bytes} {segs : List Segment}', 'variable {src : Bytes} {segs : List Segment} {lo0 : Int}', 1)
-    body = body.replace('chain 0 ', 'chain lo0 ')
+    body = sub_n(body, 'namespace GM.Proof.InlinesLink', 'namespace GM.Proof.InlinesLoLink', 1, 'E2ELoLink namespace')
+    body = sub_n(body, 'end GM.Proof.InlinesLink', 'end GM.Proof.InlinesLoLink', 1, 'E2ELoLink end')
+    body = sub_n(body,
+                 'open GM GM.Text GM.Spec GM.Inl GM.Proof.Reader GM.Proof.InlinesReader GM.Proof.Inlines GM.Proof.InlinesTotal',
+                 'open GM GM.Text GM.Spec GM.Inl GM.Proof.Reader GM.Proof.InlinesReader GM.Proof.Inlines GM.Proof.InlinesTotal GM.Proof.InlinesLo',
+                 1, 'E2ELoLink open')
+    body = sub_n(body, 'variable {src : Bytes} {segs : List Segment}', 'variable {src : Bytes} {segs : List Segment} {lo0 : Int}', 1,
+                 'E2ELoLink variable')
+    body = sub_n(body, 'chain 0 ', 'chain lo0 ', None, 'E2ELoLink chain')
     body = re.sub(r'LInv (?!lo0)', 'LInv lo0 ', body)
     body = re.sub(r'PContract (?!lo0)', 'PContract lo0 ', body)
-    body = body.replace('def ClosePost (lo : Int)', 'def ClosePost (lo0 : Int) (lo : Int)')
+    body = sub_n(body, 'def ClosePost (lo : Int)', 'def ClosePost (lo0 : Int) (lo : Int)', 1, 'E2ELoLink ClosePost')
     body = re.sub(r'ClosePost (?!\(lo0)(?!lo0)', 'ClosePost lo0 ', body)
     body = body.replace('def ClosePost lo0 (lo0 : Int)', 'def ClosePost (lo0 : Int)')
-    open('E2ELoLink.lean', 'w').write(
-        'import GM.Proof.E2ELoLoop\nimport GM.Proof.InlinesDelims\nimport GM.Proof.BlockReaderFuel\n\n' + body)
-    # HAND EDITS: the tail from `theorem parseBlock_total` on is replaced by the mutual block `segsOf_closeLabels` /
-    # `segsOfL_closeLabelsL` (copied) and the new closing theorem `parseBlock_segments_lo` (lower bound = start of the
-    # first line, upper bound = `BCur.lastStop segs`).
+
+    # --- the edits that used to be made by hand
+    # (a) `parseBlock_total` instantiates the bound 0 (it stays in GM.Proof.InlinesLink): remove it
+    body = _cut_decl(body, '/-- C01 for the inline phase:', 'theorem parseBlock_total ')
+    # (b) the closing theorem is replaced by `parseBlock_segments_lo` (stored next to this script)
+    cut = body.find('/-- C05(c) for inline content: the segments of the tree `parseBlock` returns')
+    if cut < 0:
+        raise GenError('E2ELoLink: the docstring of `parseBlock_segments` (start of the part that is replaced) not found')
+    tail = open(os.path.join(notes, 'e2e_gen', 'E2ELoLink.tail.lean')).read()
+    body = body[:cut] + tail
+    return (LOLINK_HEADER + 'import GM.Proof.E2ELoLoop\nimport GM.Proof.InlinesDelims\nimport GM.Proof.BlockReaderFuel\n\n' + body)
+
+
+def _cut_decl(s, doc_start, decl_start):
+    """remove the declaration `decl_start…` together with its docstring `doc_start…`"""
+    i = s.find(doc_start)
+    if i < 0 or s.find(doc_start, i + 1) >= 0:
+        raise GenError('docstring %r not found exactly once' % doc_start)
+    j = s.find(decl_start, i)
+    if j < 0:
+        raise GenError('declaration %r not found behind its docstring' % decl_start)
+    k = s.find('\n\n', j)
+    if k < 0:
+        raise GenError('end of declaration %r not found' % decl_start)
+    return s[:i] + s[k + 2:]
+
+
+def generate(root):
+    proof = os.path.join(root, 'lean', 'GM', 'Proof')
+    notes = os.path.join(root, 'notes')
+    out = gen_urltok(proof)
+    out['E2ELoLoop'] = gen_loloop(proof)
+    out['E2ELoLink'] = gen_lolink(proof, notes)
+    return proof, out
+
+
+def main(argv):
+    root = os.path.dirname(os.path.dirname(os.path.abspath(__file__)))
+    check = False
+    args = argv[1:]
+    while args:
+        a = args.pop(0)
+        if a == '--check':
+            check = True
+        elif a == '--root':
+            root = args.pop(0)
+        elif a in ('-h', '--help'):
+            print(__doc__)
+            return 0
+        else:
+            print('unknown argument ' + a, file=sys.stderr)
+            return 2
+    try:
+        proof, out = generate(root)
+    except GenError as e:
+        print('e2e_gen_copies: CANNOT REGENERATE — ' + str(e), file=sys.stderr)
+        return 1
+    rc = 0
+    for name in sorted(out):
+        path = os.path.join(proof, name + '.lean')
+        old = open(path).read() if os.path.exists(path) else None
+        if check:
+            if old != out[name]:
+                print('DIFFERS  ' + path)
+                rc = 1
+            else:
+                print('same     ' + path)
+        else:
+            if old != out[name]:
+                open(path, 'w').write(out[name])
+                print('written  ' + path)
+            else:
+                print('same     ' + path)
+    return rc
+
 
 if __name__ == '__main__':
-    print(__doc__)
+    sys.exit(main(sys.argv))
